@@ -37,6 +37,9 @@ const (
 	aInputAddr    = "localhost:5140"
 	aUpstreamAddr = "localhost:24224"
 	aBufRoot      = simfs.Prefix + "/buf"
+	// second output (only in scenarios with Out2): its own upstream, always healthy, and its own queue root
+	aUpstreamAddr2 = "localhost:24225"
+	aBufRoot2      = simfs.Prefix + "/buf2"
 )
 
 // ARec is one record a client sends
@@ -82,10 +85,11 @@ type AEvent struct {
 // AScenario is one world-A run
 type AScenario struct {
 	Profile       string     `json:"profile"`
-	Keys          []string   `json:"keys"`                  // orchestration key fields
-	MetricKeys    []string   `json:"metric_keys,omitempty"` // metricKeys of the configuration (default: host)
-	Tag           string     `json:"tag"`                   // tag template
-	KeyTuples     [][]string `json:"key_tuples"`            // values of (app, level-severity, pid) per tuple index; level is a severity number as string
+	Keys          []string   `json:"keys"`                    // orchestration key fields
+	MetricKeys    []string   `json:"metric_keys,omitempty"`   // metricKeys of the configuration (default: host)
+	Out2          bool       `json:"second_output,omitempty"` // a second output/buffer pair with different serialization settings (reference count 2 per record)
+	Tag           string     `json:"tag"`                     // tag template
+	KeyTuples     [][]string `json:"key_tuples"`              // values of (app, level-severity, pid) per tuple index; level is a severity number as string
 	Mode          string     `json:"mode"`
 	MaxDurMs      int        `json:"max_duration_ms"`
 	FlushMs       int        `json:"flush_ms"`
@@ -220,7 +224,34 @@ transformations:
         tls: false
         secret: ""
         maxDuration: %s
-`, fields, aInputAddr, strings.Join(s.Keys, ", "), s.Tag, metricKey, extra, aBufRoot, s.MaxBufBytes, s.Mode, aUpstreamAddr, maxDur)
+`, fields, aInputAddr, strings.Join(s.Keys, ", "), s.Tag, metricKey, extra, aBufRoot, s.MaxBufBytes, s.Mode, aUpstreamAddr, maxDur) + s.secondOutputYAML()
+}
+
+func (s *AScenario) secondOutputYAML() string {
+	if !s.Out2 {
+		return ""
+	}
+	mode2 := "Forward"
+	if s.Mode == "Forward" {
+		mode2 = "PackedForward"
+	}
+	return fmt.Sprintf(`  - name: fwd2
+    buffer:
+      type: hybridBuffer
+      rootPath: %s
+      maxBufSize: %dB
+    output:
+      type: fluentdForward
+      serialization:
+        environmentFields: [host]
+        hiddenFields: [extra1]
+      messageMode: %s
+      upstream:
+        address: %s
+        tls: false
+        secret: ""
+        maxDuration: 60s
+`, aBufRoot2, s.MaxBufBytes, mode2, aUpstreamAddr2)
 }
 
 // recordLine renders the bytes a client sends for one record (including the final newline)
@@ -540,6 +571,7 @@ func (w *worldA) tweak(r *simrt.Rand, s *AScenario, end int) {
 		// thresholds inside the range of record lengths mix pooled and unpooled records on the same record structs
 		s.PoolMin = []int{32, 32, 90, 150, 400}[r.Intn(5)]
 		s.PoolMode = []int{1, 1, 0}[r.Intn(3)]
+		s.Out2 = r.Bool(50)
 		for ci := range s.Clients {
 			for bi := range s.Clients[ci].Bursts {
 				bu := &s.Clients[ci].Bursts[bi]
@@ -730,6 +762,7 @@ type aRun struct {
 	stops                []aStop
 	notes                []string
 	stopping             bool
+	srv2                 *aServer // upstream of the second output, when the scenario has one
 	stopHung             bool
 	metricsErr           string        // first failure to gather the agent's metrics
 	stopSince            time.Duration // simulated time+1 at which a stop in progress was requested; 0 when none
@@ -948,6 +981,12 @@ func (r *aRun) drive() {
 	}
 	r.srv = newAServer(r)
 	r.srv.start()
+	if s.Out2 {
+		r.fs.MkdirAllRaw(aBufRoot2)
+		r.srv2 = newAServer(r)
+		r.srv2.addr, r.srv2.healthyOnly, r.srv2.name = aUpstreamAddr2, true, "fluentd2"
+		r.srv2.start()
+	}
 	if !r.startAgent() {
 		return
 	}
@@ -1039,4 +1078,7 @@ func (r *aRun) drive() {
 		return
 	}
 	r.srv.stop()
+	if r.srv2 != nil {
+		r.srv2.stop()
+	}
 }
